@@ -149,6 +149,16 @@ def post(t, op, st, want):
         if not ref.near(s1[root]["value"], exp, scale):
             out.append({"rule": "value_conserved", "expected": {"root_value": exp, "before": s0[root]["value"], "mtm": mtm, "carry": carry, "adjust": sum(a[2] for a in adj), "costs": friction, "trades": [(c["sec"], c["q"]) for c in costs]}, "observed": s1[root]["value"]})
 
+        # the bid/offer cost every strategy reports for the date: what was reported before + the spread (or
+        # custom-price difference) of every trade executed below that node by this op
+        if not is_next:
+            for sname in strat_names(s1):
+                if sname in s0 and "bidoffer_paid" in s0[sname] and "bidoffer_paid" in s1[sname]:
+                    below = sum(c["friction"] for c in costs if c["sec"].startswith(sname + ">"))
+                    exp_bo = s0[sname]["bidoffer_paid"] + below
+                    if not ref.near(s1[sname]["bidoffer_paid"], exp_bo, scale):
+                        out.append({"rule": "bidoffer_paid_total", "expected": {"node": sname, "bidoffer_paid": exp_bo, "before": s0[sname]["bidoffer_paid"], "spread_of_trades_below": below}, "observed": s1[sname]["bidoffer_paid"]})
+
     # ---------------- C07: cash ledger per node across one op ---------------
     if "C07" in want:
         new_date = is_next
